@@ -191,6 +191,7 @@ func (e *ExecutionEngine) Execute(ctx context.Context, operation *graphql.Reques
 				astvalidation.DirectivesAreUniquePerLocation(),
 				astvalidation.DirectivesAreDefined(),
 				astvalidation.VariableUniqueness(),
+				astvalidation.KnownArguments(),
 				astvalidation.StreamAppliedToListFieldsOnly()),
 		)
 		if err != nil {
